@@ -417,3 +417,7 @@ CONTRACTS = [
              [dict(via='flush_and_commit'), dict(via='Database.commit')], _fc_case,
              [('failed_flush_rolls_back_and_propagates_failed_commit_reported', _fc_spec)], allowed_exc=(Fault, core.CommitException)),
 ]
+from contracts import c18 as _c18
+# a body interrupted half way (by any BaseException) must never be committed: the decorator form and the context-manager exit are contracted under C18 and shared here
+CONTRACTS += [c for c in _c18.CONTRACTS if c.id in ('_wrap_function.new_func', '_commit_or_rollback')]
+
